@@ -87,6 +87,8 @@ func sType(shape []sField) reflect.Type {
 			sf.Type = tPInt
 		case "parr":
 			sf.Type = reflect.TypeOf([2]*int{})
+		case "pkmap":
+			sf.Type = reflect.TypeOf(map[*int]int{})
 		case "dash":
 			sf.Type = tInt
 			sf.Tag = `dials:"-"`
@@ -161,6 +163,14 @@ func sLeaf(kind string, id, idx int) reflect.Value {
 				a[j] = p
 			}
 			return reflect.ValueOf(a)
+		case "pkmap":
+			p, ok := arenaInts[k]
+			if !ok {
+				p = new(int)
+				arenaInts[k] = p
+			}
+			*p = n
+			return reflect.ValueOf(map[*int]int{p: n})
 		case "map", "dashref":
 			m, ok := arenaMaps[k]
 			if !ok {
@@ -203,6 +213,9 @@ func sLeaf(kind string, id, idx int) reflect.Value {
 	case "parr":
 		v, w := n, n+1
 		return reflect.ValueOf([2]*int{&v, &w})
+	case "pkmap":
+		v := n
+		return reflect.ValueOf(map[*int]int{&v: n})
 	}
 	panic("harness: no leaf value for " + kind)
 }
@@ -257,7 +270,7 @@ func (c *sCtx) fillBase(shape []sField, vals []sVal, out reflect.Value, path str
 				if f.K == "slice" {
 					fld.Set(reflect.MakeSlice(tSlice, 0, 4))
 				} else {
-					fld.Set(reflect.MakeMap(tMap))
+					fld.Set(reflect.MakeMap(fld.Type()))
 				}
 			}
 		}
@@ -302,7 +315,7 @@ func (c *sCtx) fillLayer(shape []sField, vals []sVal, out reflect.Value) {
 				if f.K == "slice" {
 					fld.Set(reflect.MakeSlice(tSlice, 0, 4))
 				} else {
-					fld.Set(reflect.MakeMap(tMap))
+					fld.Set(reflect.MakeMap(fld.Type()))
 				}
 			}
 		}
@@ -369,7 +382,7 @@ func (c *sCtx) check(shape []sField, want []sVal, got reflect.Value, path string
 				}
 			case "keep":
 				exp := sLeaf(f.K, 0, idx)
-				if !reflect.DeepEqual(fld.Interface(), exp.Interface()) {
+				if !sameLeaf(fld.Interface(), exp.Interface()) {
 					bad(fmt.Sprintf("skipped field: expected its default %v, got %v", exp.Interface(), fld.Interface()))
 				}
 			case "empty":
@@ -378,7 +391,7 @@ func (c *sCtx) check(shape []sField, want []sVal, got reflect.Value, path string
 				}
 			case "id":
 				exp := sLeaf(f.K, w.V, idx)
-				if !reflect.DeepEqual(fld.Interface(), exp.Interface()) {
+				if !sameLeaf(fld.Interface(), exp.Interface()) {
 					who := "the default"
 					if w.V > 0 {
 						who = fmt.Sprintf("layer %d (the last to set it)", w.V)
@@ -390,6 +403,28 @@ func (c *sCtx) check(shape []sField, want []sVal, got reflect.Value, path string
 			}
 		}
 	}
+}
+
+// sameLeaf is DeepEqual, except that maps keyed by pointers are compared by what the keys point to
+func sameLeaf(a, b interface{}) bool {
+	ma, ok1 := a.(map[*int]int)
+	mb, ok2 := b.(map[*int]int)
+	if !ok1 || !ok2 {
+		return reflect.DeepEqual(a, b)
+	}
+	if (ma == nil) != (mb == nil) || len(ma) != len(mb) {
+		return false
+	}
+	flat := func(m map[*int]int) map[int]int {
+		o := map[int]int{}
+		for k, v := range m {
+			if k != nil {
+				o[*k] = v
+			}
+		}
+		return o
+	}
+	return reflect.DeepEqual(flat(ma), flat(mb))
 }
 
 func show(v reflect.Value) string {
@@ -417,6 +452,7 @@ func reach(v reflect.Value, set map[uintptr]string, path string) {
 		set[v.Pointer()] = path
 		it := v.MapRange()
 		for it.Next() {
+			reach(it.Key(), set, path+"[key]")
 			reach(it.Value(), set, path+"[]")
 		}
 	case reflect.Slice:
@@ -538,7 +574,7 @@ func runStackCase(c sCase) (mis []sMis) {
 			res2, err2 := dials.VerifCompose(defPtr.Interface(), layers[:n])
 			if err2 == nil {
 				alive = append(alive, res2)
-				if !reflect.DeepEqual(stripFuncs(res), stripFuncs(res2)) {
+				if !reflect.DeepEqual(canon(reflect.ValueOf(res)), canon(reflect.ValueOf(res2))) {
 					mis = append(mis, sMis{"C02", n, "stacking the same inputs twice gave different results"})
 				}
 				g2 := map[uintptr]string{}
@@ -550,15 +586,66 @@ func runStackCase(c sCase) (mis []sMis) {
 		}
 	}
 	// inputs unchanged
-	if !reflect.DeepEqual(stripFuncs(defPtr.Interface()), stripFuncs(snapDef.Interface())) {
+	if !reflect.DeepEqual(canon(defPtr), canon(snapDef)) {
 		mis = append(mis, sMis{"C02", 0, "the caller's defaults were modified by stacking"})
 	}
 	for i, l := range layers {
-		if !reflect.DeepEqual(l.Interface(), snapLayers[i].Interface()) {
+		if !reflect.DeepEqual(canon(l), canon(snapLayers[i])) {
 			mis = append(mis, sMis{"C02", i + 1, fmt.Sprintf("the value of source %d was modified by stacking", i+1)})
 		}
 	}
 	return mis
+}
+
+// canon turns a value into plain nested data that DeepEqual can compare by content: pointers are followed (also when they
+// are map keys), chan and func values (never comparable by content) only keep their nil-ness.
+func canon(v reflect.Value) interface{} {
+	if !v.IsValid() {
+		return nil
+	}
+	switch v.Kind() {
+	case reflect.Ptr, reflect.Interface:
+		if v.IsNil() {
+			return nil
+		}
+		return []interface{}{"ref", canon(v.Elem())}
+	case reflect.Struct:
+		if v.Type() == tTime {
+			return v.Interface().(time.Time).UnixNano()
+		}
+		out := make([]interface{}, 0, v.NumField())
+		for i := 0; i < v.NumField(); i++ {
+			if v.Type().Field(i).PkgPath != "" {
+				continue
+			}
+			out = append(out, canon(v.Field(i)))
+		}
+		return out
+	case reflect.Map:
+		if v.IsNil() {
+			return nil
+		}
+		out := map[string]interface{}{}
+		it := v.MapRange()
+		for it.Next() {
+			out[fmt.Sprint(canon(it.Key()))] = canon(it.Value())
+		}
+		return out
+	case reflect.Slice:
+		if v.IsNil() {
+			return nil
+		}
+		fallthrough
+	case reflect.Array:
+		out := make([]interface{}, v.Len())
+		for i := range out {
+			out[i] = canon(v.Index(i))
+		}
+		return out
+	case reflect.Chan, reflect.Func:
+		return v.IsNil()
+	}
+	return v.Interface()
 }
 
 // stripFuncs makes a value comparable with DeepEqual (func fields never compare equal unless nil).
